@@ -16,7 +16,9 @@ VARIABLES l, bad, drift
 
 Checks(e) == { <<"no-panic", e.panic = "">>,
                <<"alloc-bounded-by-input", e.alloc <= CostC + CostK * e.n>>,
-               <<"work-linear-in-input", e.calls <= CallsC + CallsK * e.n>> }
+               <<"work-linear-in-input", e.calls <= CallsC + CallsK * e.n>>,
+               \* a container the decoder accepted (before anything is forced) declares no more items than the input has bytes
+               <<"accepted-containers-are-backed-by-input", e.declared <= e.n>> }
 
 Init == l = 1 /\ bad = {} /\ drift = {}
 Next == /\ l <= Len(Trace)
